@@ -577,6 +577,8 @@ func (c *tsCtx) expr(e ast.Expr) string {
 	case *ast.StarExpr:
 		c.leanType(c.typeOf(x.X), x.Pos())
 		return c.expr(x.X)
+	case *ast.IndexExpr:
+		return c.tspIndex(x)
 	}
 	trFail(e.Pos(), "expression %T is outside the subset", e)
 	return ""
@@ -881,6 +883,9 @@ func (c *tsCtx) call(x *ast.CallExpr) string {
 		if tsIsIntLike(from) && tsIsIntLike(to) {
 			return c.expr(x.Args[0])
 		}
+		if s, ok := c.tspConversion(from, to, x); ok {
+			return s
+		}
 		if types.Identical(from.Underlying(), to.Underlying()) {
 			c.leanType(to, x.Pos())
 			return c.expr(x.Args[0])
@@ -910,6 +915,9 @@ func (c *tsCtx) call(x *ast.CallExpr) string {
 		trFail(x.Pos(), "call of %s: not a function of the prelude or of a translated package", trSrc(x.Fun))
 	}
 	full := ci.fobj.FullName()
+	if s, ok := c.tspPreludeCall(full, x); ok {
+		return s
+	}
 	switch full {
 	case "fmt.Sprintf":
 		return c.sprintf(x)
